@@ -17,6 +17,7 @@ def main():
     if not ck.build():
         ck.finish()
     ck.check_props()
+    ck.check_translation("compiler")
     cases = comp.compile_cases(ck, ck.quick)
     res = ck.impl("c05", cases, per_case_s=120 if ck.quick else 300, procs=15)
     got = [(c, r) for c, r in zip(cases, res) if r.get("out") == "seq"]
